@@ -8,6 +8,7 @@ import (
 	"os"
 	"path/filepath"
 	"sync"
+	"sync/atomic"
 	"time"
 
 	"github.com/fsnotify/fsnotify"
@@ -22,6 +23,7 @@ type hotReloadManager struct {
 	filePath        string
 	port            int
 	server          *http.Server
+	handler         swapHandler // what the running server serves; replaced on reload
 	mu              sync.Mutex
 	watcher         *fsnotify.Watcher
 	liveReloadConns map[*liveReloadConn]bool
@@ -35,7 +37,22 @@ type liveReloadConn struct {
 	done    chan struct{}
 }
 
-// startServer starts or restarts the server
+// swapHandler is the handler of the dev server's one http.Server. A reload
+// stores the handler of the newly loaded version in it, so the listener is
+// never closed while glyph dev runs.
+type swapHandler struct {
+	current atomic.Value // of handlerBox
+}
+
+type handlerBox struct{ http.Handler }
+
+func (s *swapHandler) set(h http.Handler) { s.current.Store(handlerBox{h}) }
+
+func (s *swapHandler) ServeHTTP(w http.ResponseWriter, r *http.Request) {
+	s.current.Load().(handlerBox).ServeHTTP(w, r)
+}
+
+// startServer starts the server, or makes the running one serve the current source
 func (m *hotReloadManager) startServer() error {
 	m.mu.Lock()
 	defer m.mu.Unlock()
@@ -48,17 +65,27 @@ func (m *hotReloadManager) startServer() error {
 		return err
 	}
 
-	// Stop existing server if running
+	// A running server keeps its listener and serves the new version from the
+	// next request on. (Shutting it down and listening again refused every
+	// connection in between - for the full 2 s shutdown timeout whenever a
+	// browser tab held the live reload stream open.)
+	m.handler.set(srv.Handler)
 	if m.server != nil {
-		ctx, cancel := context.WithTimeout(context.Background(), 2*time.Second)
-		defer cancel()
-		m.server.Shutdown(ctx)
-		time.Sleep(100 * time.Millisecond) // Allow port to be released
+		printInfo(fmt.Sprintf("Now serving the new version (%s mode)", modeName(useCompiler)))
+		return nil
 	}
 
+	srv.Handler = &m.handler
 	m.listenDevServer(srv, useCompiler)
 	m.server = srv
 	return nil
+}
+
+func modeName(useCompiler bool) string {
+	if useCompiler {
+		return "compiled"
+	}
+	return "interpreted"
 }
 
 // prepareDevServer loads the source and builds the development server (with
@@ -144,11 +171,7 @@ func (m *hotReloadManager) prepareDevServer() (srv *http.Server, compiled bool, 
 func (m *hotReloadManager) listenDevServer(srv *http.Server, useCompiler bool) {
 	// Start server in background
 	go func() {
-		mode := "compiled"
-		if !useCompiler {
-			mode = "interpreted"
-		}
-		printSuccess(fmt.Sprintf("Dev server listening on http://%s (%s mode)", listenAddr(m.port), mode))
+		printSuccess(fmt.Sprintf("Dev server listening on http://%s (%s mode)", listenAddr(m.port), modeName(useCompiler)))
 		printInfo("Live reload enabled at /__livereload")
 		printInfo("Press Ctrl+C to stop")
 		if err := srv.ListenAndServe(); err != nil && err != http.ErrServerClosed {
